@@ -2,6 +2,7 @@
   Line-protocol driver: one operation per input line, one canonical answer per output line.
   Runs the *executable model definitions* (the same ones the theorems are about).
 -/
+import ConnectModel.Utf8
 import ConnectModel
 import Driver.ProtoOps
 open ConnectModel
@@ -300,6 +301,15 @@ def tbudgetOp (args : List String) : String :=
       | none => "none"
   | _, _, _ => "bad-op"
 
+/-- `u8`: utf8.Valid and strings.ToValidUTF8(s, "\uFFFD") -/
+def u8Op (args : List String) : String :=
+  match args with
+  | [h] =>
+    match hexArg h with
+    | some b => s!"valid={if utf8Valid b then 1 else 0} fixed={hexOut (toValidUTF8 b)}"
+    | none => "bad-op"
+  | _ => "bad-op"
+
 /-- `tlate`: a streaming call created under a deadline `dl=` ms from its creation whose request
     goes out `wait=` ms later: is the deadline the peer derives later than the client's? -/
 def tlateOp (args : List String) : String :=
@@ -443,6 +453,7 @@ def step (line : String) : String :=
   | "cwatch" :: args => cwatchOp args
   | "cwrite" :: args => cwriteOp args
   | "tlate" :: args => tlateOp args
+  | "u8" :: args => u8Op args
   | "tbudget" :: args => tbudgetOp args
   | "rlim" :: args => rlimOp args
   | "gen" :: args => genOp args
